@@ -262,10 +262,15 @@ class Execution(object):
         outcome = None
         try:
             try:
-                verdict = s.solve(['a'])
+                with world.cpu_limit(10):
+                    verdict = s.solve(['a'])
                 outcome = ('returned', verdict)
             finally:
                 hsolver._verif_key = None
+        except world.NonTermination as e:
+            # solve() spins without attempting a line or asking anything
+            self.errors.append(('non-termination', str(e)))
+            return 'watchdog'
         except Prune:
             return 'pruned'
         except Cycle as e:
